@@ -54,6 +54,24 @@ def case_strategy(draw):
             v["attrs"] = {"max": ["bin", "*", ["int", 2], ["var", "p0"]], "start": ["real", "0.5"]}
         if v["name"] == "s1" and draw(st.booleans()):
             v["attrs"] = {"nominal": ["bin", "+", ["var", "p1"], ["var", "p0"]]}
+    # a variable attribute that calls a piecewise-linear user function of the parameters (the function is also used
+    # in an equation, otherwise it is not part of the flat model)
+    if draw(st.integers(0, 3)) == 0:
+        a = ["var", "a"]
+        body = draw(st.sampled_from([
+            ["call", "max", a, ["real", "0.5"]],
+            ["bin", "+", ["call", "abs", ["bin", "-", a, ["real", "1.0"]]], ["real", "1.0"]],
+            ["bin", "+", ["call", "min", a, ["real", "2.0"]], ["call", "max", a, ["real", "1.0"]]],
+        ]))
+        m["funcs"].append({"name": "fpl", "inputs": ["a"], "output": "r", "protected": [], "stmts": [["assign", "r", body]]})
+        m["eqs"].append(["eq", ["var", "s3"], ["call", "fpl", ["var", draw(st.sampled_from(["s0", "u0", "p0"]))]]])
+        attr = draw(st.sampled_from(["max", "nominal", "start"]))
+        e = ["call", "fpl", ["var", "p0"]]
+        if draw(st.booleans()):
+            e = ["bin", "+", e, ["var", "p1"]]
+        for v in m["vars"]:
+            if v["name"] == "s2":
+                v["attrs"] = {attr: e}
     # literals that agree in their first six significant digits (they print alike in CasADi) must stay distinct
     twins = draw(st.sampled_from([None, None, ("3.14159", "3.14159265358979"), ("1000001.0", "1000002.0"),
                                   ("0.3333333", "0.33333333333"), ("2.0", "2.0000001")]))
@@ -147,6 +165,8 @@ def check_case(ctx, case):
         labels.append("delay")
     if case.get("twins"):
         labels.append("near_equal_literals")
+    if any(fn["name"] == "fpl" for fn in m["funcs"]):
+        labels.append("attribute_calls_piecewise_linear_function")
     labels.append("base:expand_vectors=%s" % bool(base.get("expand_vectors")))
     return dict(nontrivial=True, labels=labels, sample={"text": text})
 
